@@ -505,6 +505,12 @@ func (m *NodeManager) runSynchronizeBlocks(ctx context.Context,
 		m.blockManagerLock.Lock()
 		blockSyncNeeded := m.blockSyncNeeded
 		m.blockSyncNeeded = false
+		if !blockSyncNeeded {
+			// This thread is finished. Clear it while the lock is still held so a trigger that
+			// arrives before the thread is marked complete starts a new round instead of only
+			// setting the restart flag for a thread that will never check it again.
+			m.blockManagerThread = nil
+		}
 		m.blockManagerLock.Unlock()
 
 		if !blockSyncNeeded {
